@@ -349,9 +349,53 @@ def _gen_ops(rng):
             "script": [rng.randint(0, 2) for _ in range(len(ops))]}
 
 
+def _gen_ops_late(rng):
+    """stations REGISTERED LATE: a WELL-FORMED plugin / unplug protocol (every EV plugged once, unplugged once after
+    that) on a network that is used while only part of its stations is registered; `register_evse` calls for fresh
+    ids are interleaved with the arrivals.  Most registrations happen while nobody waits (the generator tracks the
+    queue); ~1 in 5 happens while somebody waits (the code admits nobody on registration: from then on the oracle
+    abstains on the wait-while-free / FIFO clauses, the model is still compared)."""
+    names = rng.choice([["A", "B", "C", "D", "E"], ["st-2", "st-1", "st-0", "st-4", "st-3"], ["e0", "e1", "e2", "e3", "e4"]])
+    n0 = rng.choice([0, 1, 1, 2])
+    stations, later = names[:n0], names[n0:n0 + rng.randint(1, 3)]
+    n = rng.randint(2, 8)
+    evs = [{"id": f"e{k}", "st0": rng.choice([None, "zz", names[0], rng.choice(names)]), "full": False} for k in range(n)]
+    todo = [e["id"] for e in evs]
+    rng.shuffle(todo)
+    ops, on, queue, nreg = [], [], [], n0
+    while todo or on or queue or later:
+        r = rng.random()
+        can_reg = bool(later) and (not queue or rng.random() < 0.2)
+        if can_reg and (r < 0.3 or not (todo or on or queue)):
+            ops.append(["register", later.pop(0)])
+            nreg += 1
+        elif todo and (r < 0.7 or not (on or queue)):
+            x = todo.pop()
+            ops.append(["plugin", x])
+            if len(on) < nreg:
+                on.append(x)
+            else:
+                queue.append(x)
+        elif on or queue:
+            x = rng.choice(on + queue)
+            ops.append(["unplug", x])
+            if x in queue:
+                queue.remove(x)
+            else:
+                on.remove(x)
+                if queue:
+                    on.append(queue.pop(0))
+        elif later:
+            ops.append(["register", later.pop(0)])
+            nreg += 1
+    return {"ops": ops, "stations": stations, "early": False, "evs": evs, "late": True,
+            "script": [rng.randint(0, 3) for _ in range(len(ops))]}
+
+
 def generate(rng, n, tier):
     out = [_gen_case(rng, tier) for _ in range(n)]
     out.extend(_gen_ops(rng) for _ in range(max(50, n // 5)))
+    out.extend(_gen_ops_late(rng) for _ in range(max(60, n // 15)))
     # networks from simple_acn / office001_acn, each also run in other interpreter processes; a few caltech / jpl
     out.extend(_gen_factory(rng, tier) for _ in range(max(60, n // 8 if tier != "thorough" else n // 12)))
     out.extend(_gen_factory(rng, tier, big=kind) for _ in range(1 if tier != "thorough" else 8)
@@ -647,11 +691,14 @@ def _run_ops(case):
                     net.plugin(evs[o[1]])
                 elif o[0] == "unplug":
                     net.unplug(evs[o[1]].station_id, o[1])
+                elif o[0] == "register":
+                    net.register_evse(EVSE(o[1], max_rate=32), VOLT, 0)
                 else:
                     net.post_charging_update()
             except Exception as e:  # noqa
                 err = I.err_name(e)
-            steps.append({"err": err, "snap": snap()})
+            # the network is QUERIED between the calls (what a caller sees as free right now)
+            steps.append({"err": err, "snap": snap(), "free": list(net.available_evses()), "draws": len(log["choices"])})
     return {"steps": steps, "choices": log["choices"], "choice_sizes": log["choice_sizes"]}
 
 
@@ -932,6 +979,8 @@ def compare(case, obs, model):
                 # unplugs done so far, the model's Except discards them; the error class is what is compared
                 break
             _cmp_snap(a["snap"], m["snap"], f"op {i} {case['ops'][i]}", out)
+            if "free" in a and "free" in m and a["free"] != m["free"]:
+                out.append(f"op {i} {case['ops'][i]}: available_evses() impl={a['free']} model={m['free']}")
             if out:
                 break
         if len(obs["steps"]) != len(model["steps"]):
@@ -1111,6 +1160,8 @@ def _places(snap):
 
 def oracle(case, obs):
     fails = []
+    if "ops" in case and case.get("late"):
+        return _oracle_late(case, obs)
     if "ops" in case:
         # outside the property's domain (the protocol is violated on purpose): only the
         # correspondence with the model (state and error class after every call) is checked
@@ -1280,6 +1331,80 @@ def oracle(case, obs):
     return fails
 
 
+def _oracle_late(case, obs):
+    """stations registered while the network is in use (well-formed plugin / unplug protocol): after every call each
+    present EV is in exactly one place; an arrival waits only if NO registered station is free - including one
+    registered a moment ago - and otherwise gets a station drawn among ALL free ones; a vacated station goes to the
+    head of the queue; nobody waits next to a free station (abstaining once a station was registered while somebody
+    waited: the code admits nobody on registration)."""
+    fails = []
+
+    def bad(kind, detail):
+        if len(fails) < 8:
+            fails.append({"kind": kind, "detail": detail})
+
+    registered = list(case["stations"])
+    prev = {"occ": [[st, None] for st in registered], "waiting": []}
+    present, tainted, draws = set(), False, 0
+    for i, (o, st) in enumerate(zip(case["ops"], obs["steps"])):
+        where = f"op {i} {o}"
+        snap = st["snap"]
+        if st["err"] is not None:
+            bad("run_raised", f"{where} raised {st['err']} on a well-formed protocol")
+            break
+        p_on, p_w, _ = _places(prev)
+        p_free = [s_ for s_, x in prev["occ"] if x is None]
+        on, w, dup = _places(snap)
+        if o[0] == "register":
+            registered.append(o[1])
+            if p_w:
+                tainted = True
+            if [s_ for s_, _ in snap["occ"]] != registered:
+                bad("registration_order_changed", f"{where}: station_ids={[s_ for s_, _ in snap['occ']]} expected {registered}")
+            if on != p_on or w != p_w:
+                bad("registration_moved_an_ev", f"{where}: before occ={prev['occ']} waiting={p_w}; after occ={snap['occ']} waiting={w}")
+        elif o[0] == "plugin":
+            x = o[1]
+            present.add(x)
+            if p_free:
+                # a free registered station (possibly registered a moment ago): the arrival gets one, drawn among ALL
+                if x not in on or on[x] not in p_free:
+                    bad("waiting_while_free", f"{where}: {x} did not get one of the free stations {p_free}: occ={snap['occ']} waiting={w}")
+                if st["draws"] != draws + 1 or obs["choice_sizes"][draws:draws + 1] != [len(p_free)]:
+                    bad("choice_not_among_all_free", f"{where}: free stations {p_free}, random.choice offered "
+                                                     f"{obs['choice_sizes'][draws:st['draws']]} candidates")
+            else:
+                if w != p_w + [x] or on != p_on:
+                    bad("arrival_not_enqueued_last", f"{where}: no station free, waiting before={p_w} after={w} occ={snap['occ']}")
+            draws = st["draws"]
+        elif o[0] == "unplug":
+            x = o[1]
+            present.discard(x)
+            if x in p_w:
+                if on != p_on or w != [y for y in p_w if y != x]:
+                    bad("queue_departure_moved_others", f"{where}: before occ={prev['occ']} waiting={p_w}; after occ={snap['occ']} waiting={w}")
+            elif x in p_on:
+                exp_on = {k: v for k, v in p_on.items() if k != x}
+                exp_w = list(p_w)
+                if exp_w:
+                    exp_on[exp_w.pop(0)] = p_on[x]
+                if on != exp_on or w != exp_w:
+                    bad("not_fifo", f"{where}: {x} vacated {p_on[x]} with waiting={p_w}; after occ={snap['occ']} waiting={w}")
+        if dup:
+            bad("session_in_two_places", f"{where}: {dup} occ={snap['occ']} waiting={w}")
+        here = set(on) | set(w)
+        if here != present:
+            bad("session_lost" if present - here else "session_present_when_gone",
+                f"{where}: present={sorted(present)} occ={snap['occ']} waiting={w}")
+        free_now = [s_ for s_, x in snap["occ"] if x is None]
+        if st.get("free") is not None and list(st["free"]) != free_now:
+            bad("available_evses_stale", f"{where}: available_evses()={st['free']} but the vacant registered stations are {free_now}")
+        if w and free_now and not tainted:
+            bad("waiting_while_free", f"{where}: waiting={w} occ={snap['occ']}")
+        prev = snap
+    return fails
+
+
 def _max_overlap(case):
     best = 0
     for t in range(_horizon(case)):
@@ -1288,12 +1413,34 @@ def _max_overlap(case):
 
 
 def nontrivial(case, obs):
+    if "ops" in case and case.get("late"):
+        return any(st["snap"]["waiting"] for st in obs["steps"])
     if "ops" in case:
         return any(st["err"] for st in obs["steps"])
     return any(st["snap"]["waiting"] for st in obs["trace"])
 
 
 def features(case, obs):
+    if "ops" in case and case.get("late"):
+        out = {"stream:ops_late_registration"}
+        reg_seen, late_ids = False, set()
+        prev_w = []
+        for o, st in zip(case["ops"], obs["steps"]):
+            if o[0] == "register":
+                late_ids.add(o[1])
+                out.add("late:register_while_waiting" if prev_w else "late:register_while_nobody_waits")
+                if not case["stations"] and len(late_ids) == 1:
+                    out.add("late:network_used_before_first_station" if reg_seen else "late:first_station")
+            else:
+                reg_seen = True
+                if o[0] == "plugin":
+                    on = {x: s_ for s_, x in st["snap"]["occ"] if x is not None}
+                    if on.get(o[1]) in late_ids:
+                        out.add("late:arrival_takes_late_station")
+                    if o[1] in st["snap"]["waiting"]:
+                        out.add("late:arrival_waits")
+            prev_w = st["snap"]["waiting"]
+        return sorted(out | {"ops_err:" + st["err"] for st in obs["steps"] if st["err"]})
     if "ops" in case:
         return sorted({"stream:ops"} | {"ops_err:" + st["err"] for st in obs["steps"] if st["err"]}
                       | {"ops_waiting" for st in obs["steps"] if st["snap"]["waiting"]})
